@@ -64,7 +64,8 @@ class C19(Check):
             "images of every length 1..600 (quick: every 7th and all multiples of 16) through "
             "`signapp hash`; images whose path as given looks like another kind of argument (64 hex "
             "digits, 0x + 64 hex, a number, a key, an operation name), for hash / message / message -o; "
-            "images given to signonetime through symbolic links; format variants (CRLF, lower case, redundant upper-address "
+            "images ground so that their SHA-256 starts with 2, 3, 4 zero digits, through hash / message / "
+            "message -o / key; images given to signonetime through symbolic links; format variants (CRLF, lower case, redundant upper-address "
             "records, start-address record, records of an area in reverse, per-area lengths); each "
             "file through compute_app_hash, each layout through `signapp hash`; signonetime with "
             "1..4 images x 2 runs (file names with non-ASCII letters, blanks, no extension); `signapp "
@@ -100,6 +101,23 @@ class C19(Check):
             raise HarnessError("Intel-HEX writer self-test failed")
         if ihex.record(0x01, 0) != ":00000001FF" or ihex.record(0x04, 0, b"\xff\xff") != ":02000004FFFFFC":
             raise HarnessError("Intel-HEX writer self-test failed (EOF / ELA records)")
+
+    def zero_images(self):
+        """single-area images whose SHA-256 starts with 2, 3 and 4 zero hex digits (ground)"""
+        import hashlib
+        if not hasattr(self, "_zero_images"):
+            base = Rng("c19-zero").bytes(12)
+            found = {}
+            i = 0
+            while len(found) < 3 and i < 5000000:
+                data = base + i.to_bytes(4, "big")
+                hx = hashlib.sha256(data).hexdigest()
+                for z in (2, 3, 4):
+                    if z not in found and hx.startswith("0" * z) and hx[z] != "0":
+                        found[z] = data
+                i += 1
+            self._zero_images = found
+        return self._zero_images
 
     def bounds(self):
         return {"areas": "1..5" if self.thorough else "1..3", "lengths": ihex.LENGTHS, "block_edge_lengths": BLOCK_LENGTHS, "sweep": "1..600",
@@ -139,6 +157,7 @@ class C19(Check):
         for new in range(8):
             cs.append({"kind": "embed", "new": new})
         cs.append({"kind": "namelike"})
+        cs.append({"kind": "zerohash"})
         for part in range(12):
             cs.append({"kind": "blocks", "part": part})
         for part in range(4):
@@ -167,6 +186,8 @@ class C19(Check):
                 self.case_blocks(case, stats, vs)
             elif k == "namelike":
                 self.case_namelike(case, stats, vs)
+            elif k == "zerohash":
+                self.case_zerohash(case, stats, vs)
             elif k == "sweep":
                 self.case_sweep(case, stats, vs)
         return vs
@@ -315,6 +336,64 @@ class C19(Check):
                       "namelike", a, {"exit": r.code, "exc": r.exc, "out": r.out[-300:],
                                       "file": td.read("auth.json")},
                       {"hash_of_the_file_named": rel, "hash": want.hex()})
+
+    # -- route zerohash: leading zeros of the hash survive every conversion -----------------
+    def x_zerohash(self, a, stats, vs):
+        """args: zeros (2 | 3 | 4 leading zero hex digits), op: hash | message | message-o |
+        message-o+key, policy, placement"""
+        import json
+        from ..refs.keccak import keccak256
+        td = self.td
+        td.clear()
+        data = self.zero_images()[a.zeros]
+        addr = (ihex.ZONE << 16) + (0x0100 if a.pl == "low" else 0xFFF8)
+        img = [(addr, data)]
+        want = ihex.reference_hash(img)
+        path = td.write("zero.hex", ihex.write(img, policy=a.policy))
+        out = td.file("auth.json")
+        text = "RSK_powHSM_signer_%s_iteration_9" % want.hex()
+        key = ecsig.seeded_scalar(Rng("c19-zero-key"))
+        patches = opstub.seam_urandom(opstub.ByteStream("c19-zero"))
+        argv = {"hash": ["hash", "-a", path], "message": ["message", "-a", path, "-i", "9"],
+                "message-o": ["message", "-a", path, "-i", "9", "-o", out],
+                "message-o+key": ["message", "-a", path, "-i", "9", "-o", out],
+                "key": ["key", "-a", path, "-i", "9", "-o", out, "-k", key.hex()]}[a.op]
+        stats.evaluations += 1
+        r = opstub.run_main(self.signapp.main, ["signapp.py"] + argv, patches=patches)
+        if a.op == "message-o+key" and r.code == 0:
+            stats.evaluations += 1
+            r = opstub.run_main(self.signapp.main, ["signapp.py", "key", "-o", out, "-k", key.hex()],
+                                patches=patches)
+        ok, seen = False, None
+        if r.code == 0 and not r.exc:
+            if a.op == "hash":
+                ok, seen = want.hex() in r.out.lower(), r.out[-200:]
+            elif a.op == "message":
+                ok, seen = text in r.out, r.out[-200:]
+            else:
+                try:
+                    d = json.loads(td.read("auth.json"))
+                    seen = d
+                    ok = d["signer"] == {"hash": want.hex(), "iteration": 9}
+                    if ok and a.op != "message-o":
+                        dg = keccak256(b"\x19Ethereum Signed Message:\n" + str(len(text)).encode() +
+                                       text.encode())
+                        ok = ecsig.verify_libsecp(ecsig.pub_of_libsecp(key), dg,
+                                                  bytes.fromhex(d["signatures"][-1]))
+                except Exception:   # noqa
+                    ok = False
+        stats.observe(("zerohash", a.zeros, a.op, a.pl, r.code, ok))
+        stats.sample({"route": "zerohash", "hash": want.hex(), "op": a.op, "exit": r.code})
+        if not ok:
+            self.viol(vs, "hash" if a.op == "hash" else "embedded-hash", "zerohash:%s" % a.op, "zerohash", a,
+                      {"exit": r.code, "exc": r.exc, "seen": seen},
+                      {"hash": want.hex(), "text": text})
+
+    def case_zerohash(self, case, stats, vs):
+        for zeros in sorted(self.zero_images()):
+            for op in ("hash", "message", "message-o", "message-o+key", "key"):
+                for pl, policy in (("low", 16), ("cross", 1), ("low", 255)):
+                    self.x_zerohash(Args(zeros=zeros, op=op, pl=pl, policy=policy), stats, vs)
 
     def case_namelike(self, case, stats, vs):
         import hashlib
